@@ -354,10 +354,7 @@ fn ops_for(m: &Model, b: &Bounds) -> Vec<Op> {
 	// block shapes on top of a given live list length
 	let block_choices = |live_len: usize, room: usize| -> Vec<(usize, Vec<usize>)> {
 		let mut v = vec![];
-		for a in 1..=b.max_appends.min(room.max(1)) {
-			if a > room {
-				break;
-			}
+		for a in 0..=b.max_appends.min(room) {
 			let mut subsets: Vec<Vec<usize>> = vec![vec![]];
 			for i in 0..live_len {
 				subsets.push(vec![i]);
@@ -370,6 +367,10 @@ fn ops_for(m: &Model, b: &Bounds) -> Vec<Op> {
 				}
 			}
 			for s in subsets {
+				// a block that neither appends nor removes is no block
+				if a == 0 && s.is_empty() {
+					continue;
+				}
 				v.push((a, s));
 			}
 		}
@@ -519,7 +520,7 @@ impl Engine for C08 {
 	fn meta(&self, _tier: Tier) -> Meta {
 		Meta {
 			level: "model_checking",
-			rule: "explicit-state exploration (DFS over snapshots of the backend directory, memoised on reference state + file contents + remaining depth) of the real prunable PMMRBackend for a fixed-size and a variable-size element type. Alphabet: a unit of work = optional rewind to any earlier block boundary not below the last compaction cutoff (block by block, each with the bitmap of the leaves that block removed, exactly as Extension::rewind does) then one or two blocks of 1..3 appends and removal of any <= 2 live leaves, then sync or discard; check_compact at any boundary with the rewind bitmap of later removals; reopen. After every step the view through PMMR::at must agree with an unpruned reference: root, size, get_data/get_hash of every live leaf, None for spent leaves, a merkle_proof for every live leaf verifying against the root, leaf_pos_iter, leaf_idx_iter(from) for every from, n_unpruned_leaves, PMMR::validate.",
+			rule: "explicit-state exploration (DFS over snapshots of the backend directory, memoised on reference state + file contents + remaining depth) of the real prunable PMMRBackend for a fixed-size and a variable-size element type. Alphabet: a unit of work = optional rewind to any earlier block boundary not below the last compaction cutoff (block by block, each with the bitmap of the leaves that block removed, exactly as Extension::rewind does) then one or two blocks of 0..3 appends and removal of any <= 2 live leaves (spend-only blocks included), then sync or discard; check_compact at any boundary with the rewind bitmap of later removals; reopen. After every step the view through PMMR::at must agree with an unpruned reference: root, size, get_data/get_hash of every live leaf, None for spent leaves, a merkle_proof for every live leaf verifying against the root, leaf_pos_iter, leaf_idx_iter(from) for every from, n_unpruned_leaves, PMMR::validate.",
 			assumptions: vec![
 				"rewinds never go below the last compaction cutoff and happen before the appends of a unit (the store's documented usage protocol)".into(),
 				"3 units of work with up to 3 appends and 9 leaves (quick) / 4 units with up to 2 appends and 7 leaves (thorough), plus up to 2 compactions and 1 reopen anywhere in between; removal sets of size <= 2 per block".into(),
